@@ -15,9 +15,14 @@
 (***************************************************************************)
 EXTENDS Datagram, Bridge, TraceKit
 
-VARIABLES i, bad, dropped, tags, B, known, tid
+VARIABLES i, bad, dropped, tags, BB, occ, known, tid
 
 Cl(c, name) == Clause(c, name)
+NB == 2
+Br(e) == IF "br" \in DOMAIN e THEN e.br ELSE 1
+\* bridge k as it sees the world: ports of foreign sockets and of the OTHER bridge object are occupied for it
+Eff(k) == [BB[k] EXCEPT !.occupied = occ \cup UNION {BB[j].bound \cup BB[j].closing : j \in (1..NB) \ {k}}]
+Owner(p) == {k \in 1..NB : p \in BB[k].bound}
 SeqToSet(q) == {q[k] : k \in 1..Len(q)}
 NoKnown == <<>>
 KnownIdx(code) == {k \in 1..Len(known) : known[k].code = code}
@@ -48,9 +53,10 @@ FieldClauses(fam, b, g) ==
 OnlyCallbackExc(e) == \A k \in 1..Len(e.excs) : e.cbraise /\ e.excs[k] = "CallbackBoom"
 
 JudgeDgram(e) ==
-  LET listening == e.p \in B.bound
+  LET listening == Owner(e.p) # {}
       c == Classify(e.b)
       n == Len(e.delivered)
+      rightOwner == \A k \in 1..n : ("br" \notin DOMAIN e.delivered[k]) \/ e.delivered[k].br \in Owner(e.p)
   IN IF e.handed # listening
      THEN [why |-> IF e.handed THEN <<"C17:listens-while-it-should-not">>
                    ELSE <<"C17:does-not-listen-while-running", "C07:later-deliveries-stopped">>, tag |-> "dgram-listening-mismatch"]
@@ -68,6 +74,7 @@ JudgeDgram(e) ==
                   tag |-> "dgram-unknown-model"]
             [] c.cls = "valid" ->
                  [why |-> Cl(n = 1 \/ (e.cut /\ n = 0), "C07:exactly-one-callback-per-valid-broadcast")
+                          \o Cl(rightOwner, "C07:delivered-to-the-listening-bridge")
                           \o (IF n >= 1 THEN FieldClauses(c.fam, e.b, e.delivered[1]) ELSE <<>>)
                           \o (IF e.burst THEN <<>> ELSE Cl(OnlyCallbackExc(e), "C07:valid-broadcast-raised")
                                                       \o Cl(e.warns = 0, "C06:valid-broadcast-warned")),
@@ -77,45 +84,47 @@ JudgeDgram(e) ==
 
 SetOf(q) == SeqToSet(q)
 JudgeObs(e) ==
+  LET B == Eff(Br(e)) IN
   [why |->   Cl(e.running = B.running, "C17:running-flag")
           \o Cl(SetOf(e.listening) = B.bound, "C17:listening-ports")
           \o Cl(\A p \in PortSet(B) : (p \in SetOf(e.bindable)) <=> Bindable(B, p), "C17:ports-released"),
-   tag |-> IF B.running THEN "obs-running" ELSE IF B.closing # {} THEN "obs-closing" ELSE "obs-stopped"]
+   tag |-> (IF B.running THEN "obs-running" ELSE IF B.closing # {} THEN "obs-closing" ELSE "obs-stopped") \o (IF Br(e) = 2 THEN "-second-bridge" ELSE "")]
 
+Upd(k, B2) == [BB EXCEPT ![k] = [B2 EXCEPT !.occupied = {}]]
+R(why, tag, bb, oc, kn) == [why |-> why, tag |-> tag, BB |-> bb, occ |-> oc, known |-> kn]
 Step(e) ==
-  CASE e.ev = "Types" -> [why |-> <<>>, tag |-> "types", B |-> B, known |-> e.known]
-    [] e.ev = "New" -> [why |-> <<>>, tag |-> "new", B |-> NewBridge(e.ports), known |-> known]
+  LET k == Br(e) B == Eff(k) IN
+  CASE e.ev = "Types" -> R(<<>>, "types", [j \in 1..NB |-> NewBridge(<<>>)], {}, e.known)
+    [] e.ev = "New" -> R(<<>>, "new", Upd(k, NewBridge(e.ports)), occ, known)
     [] e.ev = "Start" ->
-         [why |-> IF StartSucceeds(B) THEN Cl(e.ok, "C17:start-failed-although-ports-free") ELSE Cl(~e.ok, "C17:start-must-raise-when-a-port-is-taken"),
-          tag |-> "start-" \o e.how \o (IF StartSucceeds(B) THEN "" ELSE IF B.running THEN "-while-running" ELSE "-port-taken"),
-          B |-> AfterStart(B), known |-> known]
+         R(IF StartSucceeds(B) THEN Cl(e.ok, "C17:start-failed-although-ports-free") ELSE Cl(~e.ok, "C17:start-must-raise-when-a-port-is-taken"),
+           "start-" \o e.how \o (IF StartSucceeds(B) THEN "" ELSE IF B.running THEN "-while-running"
+                                  ELSE IF \E j \in 1..Len(B.ports) : ~ValidPort(B.ports[j]) THEN "-invalid-port" ELSE "-port-taken")
+                    \o (IF k = 2 THEN "-second-bridge" ELSE ""),
+           Upd(k, AfterStart(B)), occ, known)
     [] e.ev = "Stop" ->
-         [why |-> Cl(~e.raised, "C17:stop-raised"),
-          tag |-> "stop-" \o e.how \o (IF B.running THEN "" ELSE "-while-stopped"), B |-> AfterStop(B), known |-> known]
-    [] e.ev = "Cycle" -> [why |-> <<>>, tag |-> "cycle", B |-> AfterCycle(B), known |-> known]
-    [] e.ev = "Occupy" -> [why |-> Cl(~Busy(B, e.p), "harness:occupy-busy-port"), tag |-> "occupy", B |-> [B EXCEPT !.occupied = @ \cup {e.p}], known |-> known]
-    [] e.ev = "Free" -> [why |-> <<>>, tag |-> "free", B |-> [B EXCEPT !.occupied = @ \ {e.p}], known |-> known]
-    [] e.ev = "Obs" -> JudgeObs(e) @@ [B |-> B, known |-> known]
-    [] e.ev = "Dgram" -> JudgeDgram(e) @@ [B |-> B, known |-> known]
-    [] e.ev = "Stray" -> [why |-> <<"C07:callback-outside-datagram-processing">>
-                                  \o (IF B.running THEN <<>> ELSE <<"C17:callback-after-stop">>), tag |-> "stray", B |-> B, known |-> known]
-    [] e.ev = "Order" -> \* tags of the deliveries of one burst on one port, in the order the callback saw them
-         [why |-> Cl(\A k \in 1..(Len(e.seqs) - 1) : e.seqs[k] < e.seqs[k + 1], "C07:arrival-order-per-port"),
-          tag |-> "order", B |-> B, known |-> known]
-    [] OTHER -> [why |-> <<"unknown-event">>, tag |-> "unknown", B |-> B, known |-> known]
+         R(Cl(~e.raised, "C17:stop-raised"),
+           "stop-" \o e.how \o (IF B.running THEN "" ELSE "-while-stopped") \o (IF k = 2 THEN "-second-bridge" ELSE ""), Upd(k, AfterStop(B)), occ, known)
+    [] e.ev = "Cycle" -> R(<<>>, "cycle", [j \in 1..NB |-> AfterCycle(BB[j])], occ, known)
+    [] e.ev = "Occupy" -> R(Cl(~Busy(B, e.p), "harness:occupy-busy-port"), "occupy", BB, occ \cup {e.p}, known)
+    [] e.ev = "Free" -> R(<<>>, "free", BB, occ \ {e.p}, known)
+    [] e.ev = "Obs" -> LET j == JudgeObs(e) IN R(j.why, j.tag, BB, occ, known)
+    [] e.ev = "Dgram" -> LET j == JudgeDgram(e) IN R(j.why, j.tag, BB, occ, known)
+    [] e.ev = "Stray" -> R(<<"C07:callback-outside-datagram-processing">> \o (IF \E j \in 1..NB : BB[j].running THEN <<>> ELSE <<"C17:callback-after-stop">>),
+                           "stray", BB, occ, known)
+    [] e.ev = "Order" -> R(Cl(\A q \in 1..(Len(e.seqs) - 1) : e.seqs[q] < e.seqs[q + 1], "C07:arrival-order-per-port"), "order", BB, occ, known)
+    [] OTHER -> R(<<"unknown-event">>, "unknown", BB, occ, known)
 
-Init == i = 1 /\ bad = <<>> /\ dropped = 0 /\ tags = <<>> /\ B = NewBridge(<<>>) /\ known = NoKnown /\ tid = -1
+Init == i = 1 /\ bad = <<>> /\ dropped = 0 /\ tags = <<>> /\ BB = [j \in 1..NB |-> NewBridge(<<>>)] /\ occ = {} /\ known = NoKnown /\ tid = -1
 Next ==
   /\ i <= NEvents
   /\ LET e == Events[i] r == Step(e) IN
        /\ bad' = IF r.why = <<>> THEN bad ELSE AddBad(bad, e, r.why)
        /\ dropped' = IF r.why = <<>> THEN dropped ELSE Dropped(bad, dropped)
        /\ tags' = Bump(tags, r.tag)
-       /\ B' = r.B /\ known' = r.known /\ tid' = e.tid
+       /\ BB' = r.BB /\ occ' = r.occ /\ known' = r.known /\ tid' = e.tid
   /\ i' = i + 1
-vars == <<i, bad, dropped, tags, B, known, tid>>
+vars == <<i, bad, dropped, tags, BB, occ, known, tid>>
 Spec == Init /\ [][Next]_vars
 Done == i = NEvents + 1 => WriteVerdict(bad, dropped, tags)
-\* invariants of the life-cycle model along every recorded behaviour
-RunningIffListening == B.running <=> (B.bound = PortSet(B) /\ (B.ports # <<>> \/ B.running))
 =============================================================================
